@@ -491,4 +491,19 @@ theorem generated_refused_are_the_view_forms :
   · intro o m v; cases v <;> rfl
   · intro o m q; by_cases hq : q = 0 <;> simp [valDiv, hq]
 
+
+/-- **the product loops of the source are the modelled ones**: the case analysis of the inner loops of `QuadraticModel.__mul__`
+    and `BinaryQuadraticModel.__mul__` (generated from the source; the surrounding skeleton is checked literally by the
+    translator) is `qmMulStep` / `bqmMulStep`, so `mul_linear_eval`, `square_dispatch` and the closed forms of `x*x` speak
+    about the loops as they are written -/
+theorem generated_mul_steps : Generated.qmMulStep = qmMulStep ∧ Generated.bqmMulStep = bqmMulStep := by
+  constructor
+  · funext u v acc
+    simp only [Generated.qmMulStep, qmMulStep]
+    split
+    · cases u.info.vt <;> simp
+    · rfl
+  · funext s u v acc
+    rfl
+
 end C06
